@@ -5,8 +5,10 @@ CONSTANTS MaxSize = 8
  MaxAtoms = 4
  AtomKinds = {"A", "L", "F", "P", "B", "M"}
  LongKinds = {"A", "L"}
+ ShortKinds = {"SP", "SN", "SE", "SA"}
+ ShortLen = 3
  DeclAtoms = 3
- Variants <- VariantsQuick
+ Variants <- VariantsDeep
  ExactOccursCheck = TRUE
  AnnotVarCheck = TRUE
  WithModel = TRUE
